@@ -66,6 +66,18 @@ def _is_contract_mutator(ci: ClassInfo, kind: str, name: str) -> Optional[str]:
         return "set_* mutator by contract"
     if name.startswith("plot") or name.startswith("_plot") or name == "_process_is_par_kwarg":
         return "plotting helper (outside the read API of the property)"
+    # a private method whose every caller in the class hierarchy is a plotting function is part of the plotting code
+    if name.startswith("_") and not name.startswith("__"):
+        callers = set()
+        for c in ci.mro():
+            for k_, nm, f in c.all_functions():
+                if nm == name:
+                    continue
+                for x in ast.walk(f):
+                    if isinstance(x, ast.Call) and (call_name(x) or "") in (f"self.{name}", f"{c.name}.{name}", f"type(self).{name}"):
+                        callers.add(nm)
+        if callers and all(nm.startswith("plot") or nm.startswith("_plot") for nm in callers):
+            return "plotting helper (called only from plotting functions)"
     return None
 
 
@@ -174,7 +186,10 @@ def _fresh_at_call_sites(repo, m, ci, name: str, fn, pname: str) -> bool:
             nd = fa.cfg.stmt_node_containing(x)
             if nd is None:
                 return False
-            if fa.roots(arg, nd):
+            # the caller's own *args / **kwargs collections are built for that call: fresh
+            a_ = f.args
+            own_star = {f"param:{q.arg}" for q in ([a_.vararg] if a_.vararg else []) + ([a_.kwarg] if a_.kwarg else [])}
+            if fa.roots(arg, nd) - own_star:
                 return False
             sites.append(x)
     return bool(sites)
